@@ -6,7 +6,7 @@ from spec import helmert as H
 
 RULES = {
     'C06.B.formula': 'every shipped parameter set + random sets (|t|<=1000 m, |sc|<=100 ppm, |r|<60 arcsec) x points in all octants up to 5e7 m: |conform7 - formula(50 digits)| <= 1 micrometre; round trip with the negated set <= 0.01 mm (2 mm AGD66/84)',
-    'C06.B.covariance': 'sets with uncertainties x symmetric PSD input covariances (full rank, rank 1/2, zero, large condition numbers): result returned, symmetric, PSD (eigenvalues >= -1e-12 scale), equals J Q J^T evaluated independently (relative 1e-9)',
+    'C06.B.covariance': 'sets with uncertainties x symmetric PSD input covariances (full rank, rank 1/2, zero, large condition numbers, integer-typed arrays: whole-number diagonal and all-zero): result returned, symmetric, PSD (eigenvalues >= -1e-12 scale), equals J Q J^T evaluated independently (relative 1e-9)',
 }
 PARAMS = ('tx', 'ty', 'tz', 'sc', 'rx', 'ry', 'rz')
 
@@ -69,7 +69,7 @@ def work(item):
     sdsets.append(('random_sd', C.Transformation('A', 'B', 0, 1.0, -2.0, 3.0, 0.5, 0.1, -0.2, 0.3, tf_sd=sd)))
     for name, t in sdsets:
         for k in range(item['pts']):
-            kind = ('full', 'rank1', 'rank2', 'zero', 'illcond')[k % 5]
+            kind = ('full', 'rank1', 'rank2', 'zero', 'illcond', 'int-diagonal', 'int-zero')[k % 7]
             G = np.array([[rng.gauss(0, 1) for _ in range(3)] for _ in range(3)])
             if kind == 'rank1':
                 G[:, 1:] = 0
@@ -80,6 +80,10 @@ def work(item):
             elif kind == 'illcond':
                 G = G @ np.diag([1, 1e-2, 1e-4])
             V = G @ G.T * 10 ** rng.uniform(-8, -2)
+            if kind == 'int-diagonal':          # a covariance typed in whole numbers: an integer numpy array is as valid an input as a float one
+                V = np.diag([rng.randint(1, 4), rng.randint(1, 4), rng.randint(1, 9)])
+            elif kind == 'int-zero':            # a point held fixed
+                V = np.zeros((3, 3), dtype=int)
             X = [rng.uniform(-6.4e6, 6.4e6) for _ in range(3)]
             inp = dict(set=name, X=X, V=V.tolist(), kind=kind)
             r2['n'] += 1
